@@ -30,7 +30,7 @@ def build_cases(rng, th, scratch, ndirs, per_dir):
     """upload histories over real files in `scratch`: (implementation cases, model cases, expected traces, descriptions)"""
     L = layouts.load()
     SP = spec.layouts()
-    paths = L["upload_paths"]                      # regenerated [path, id]
+    paths = [list(x) for x in spec.upload_file_ids()]     # the SPECIFICATION's [path, id] (not the regenerated table)
     wd_spec = SP["zvt::feig::packets::WriteData"]
     icases, mcases, expect, why = [], [], [], []
     if True:
@@ -114,7 +114,7 @@ def check(run):
     rng, th = run.rng, run.tier == "thorough"
     drv = vlib.ocaml_build()
     seqb = vlib.harness_build("harness", ["seq"])["seq"]
-    paths = L["upload_paths"]
+    paths = [list(x) for x in spec.upload_file_ids()]
     scratch = "/tmp/zvt_verif_c11_%d" % os.getpid()
     shutil.rmtree(scratch, ignore_errors=True)
     os.makedirs(scratch)
@@ -161,7 +161,7 @@ def replay(path):
     r = json.load(open(path))
     L = layouts.load()
     f = r["case"].split("\t")
-    id2path = {i: p for p, i in L["upload_paths"]}
+    id2path = {i: p for p, i in spec.upload_file_ids()}
     scratch = "/tmp/zvt_verif_c11_replay_%d" % os.getpid()
     shutil.rmtree(scratch, ignore_errors=True)
     os.makedirs(scratch)
